@@ -101,7 +101,7 @@ def sol_struct(t, name=None):
 def opt_bytes(t):
     """t = into_vec(Option<Bytes>) i.e. PHI{Vec::default() | Some?(x)} -> x ; or plain default -> 'EMPTY'"""
     al = [core(a) for a in alts(t)]
-    xs = [a for a in al if not (a[0] == 'call' and a[1].endswith('Default>::default'))]
+    xs = [a for a in al if not (a[0] == 'call' and (a[1].endswith('Default>::default') or re.search(r'vec::Vec::<u8>::new$', a[1])) and not a[2])]
     if not xs:
         return 'EMPTY'
     if len(xs) == 1 and len(al) == 2:
